@@ -40,6 +40,21 @@ def run_prog_property(ck, pid, prop_file, kinds, n_gen_quick, n_gen_thorough, st
     extra = scenarios.all_sources() + (extra_sources(ck) if extra_sources else [])
     if pid == "C01":
         sources += PC.generated_sources(ck, n // 3, style="mutation") + PC.generated_sources(ck, n // 3, style="bitsoup")
+        # programs whose number literals carry NO suffix (the checker infers them): every operator with an unsuffixed literal
+        # operand on every integer type, both positions (round-10 seed C01-r10: a fast path keyed on the literal's own
+        # variant instead of the operation's type), and generated programs with their suffixes / annotations stripped
+        import c05
+        lits = c05.literal_operand_programs()
+        for t in ["i8", "i16", "i32", "i64", "u8", "u16", "u32", "u64", "usize"]:
+            for op in ["%", "/", "*", "&", "|", "^"]:
+                for lit in ["4", "8", "16", "64"]:
+                    lits.append(f"pub fn main(x: {t}) -> {t} {{ x {op} {lit} }}")
+                    lits.append(f"pub fn main(x: {t}, y: {t}) -> {t} {{ (x {op} {lit}) ^ ({lit} {op} (y | 1)) }}")
+            lits.append(f"pub fn main(a: [{t}; 3]) -> {t} {{ let mut s = 0; for e in a {{ s = s ^ (e % 8); }} s }}")
+        if quick:
+            lits = ck.rng.sample(lits, 260)
+        sources += [("lit%d" % i, s) for i, s in enumerate(lits)]
+        sources += [(nm + "-inferred", c05.strip_annotations(ck.rng, s)) for nm, s in PC.generated_sources(ck, n // 4)]
     sources = extra + sources
     recs = PC.run_programs(ck, sources, pid.lower(), ninputs=ninputs_quick if quick else 24)
     if extra:
